@@ -237,6 +237,62 @@ def rule_e(ctx, R, T, reader):
         raise AnchorLost("barrier function for HalfLock<%s>" % T)
 
 
+def rule_h(ctx, R, T, swap_fn, swap_site):
+    """every sampling of the reader slots on the writer side happens after the pointer swap: a zero observed before the swap says
+    nothing about readers that may still pick up the old pointer"""
+    F = ctx.F
+    rid = "C01.h"
+    readers = {m.id for m in hl_methods(F, T) if adt_constructions(m, RG)}
+    samplers = []
+    for m in hl_methods(F, T):
+        if m.id in readers:
+            continue
+        whole, idx, loads = reads_slots(F, m, R)
+        if (whole or idx) and loads:
+            samplers.append(m)
+    if not samplers:
+        raise AnchorLost("no writer-side sampling of the reader slots for HalfLock<%s>" % T)
+    callers = F.callers()
+    dom = cfg.dominators(swap_fn)
+    memo = {}
+
+    def post_swap_only(fid, depth=0):
+        """(ok, witness) — is every call chain into fid rooted at a call site that the swap dominates?"""
+        if fid in memo:
+            return memo[fid]
+        memo[fid] = (True, None)     # cycles: optimistic
+        cs = [(c, k, bb) for (c, k, bb) in callers.get(fid, []) if k == "call" and F.inst[c].local]
+        if not cs:
+            memo[fid] = (False, "%s has no caller" % F.inst[fid].name); return memo[fid]
+        for (c, k, bb) in cs:
+            if c == swap_fn.id:
+                if not (swap_site.bb in dom[bb] and swap_site.bb != bb):
+                    memo[fid] = (False, "%s calls %s at %s, which the pointer swap does not dominate" % (F.inst[c].name, F.inst[fid].name.split("::")[-1], F.inst[c].term(bb)["sp"]))
+                    return memo[fid]
+            else:
+                ok, w = post_swap_only(c, depth + 1)
+                if not ok:
+                    memo[fid] = (False, "%s is called from %s at %s; %s" % (F.inst[fid].name.split("::")[-1], F.inst[c].name, F.inst[c].term(bb)["sp"], w)) \
+                        if c != swap_fn.id and not _calls_after_swap_only(F, c, swap_fn) else (False, w)
+                    return memo[fid]
+        return memo[fid]
+    for m in samplers:
+        if m.id == swap_fn.id:
+            # sampling inlined into the swapping function: every slot load must be dominated by the swap
+            whole, idx, loads = reads_slots(F, m, R)
+            okk = all(swap_site.bb in dom[l.bb] and swap_site.bb != l.bb for l in loads if l.aty == "usize" and not on_field(l, R.gen))
+            ctx.check(okk, rid, "sample-after-swap:%s@%s" % (T.split("::")[-1], keyname(m.name).split("::")[-1]), "reader slots are sampled only after the pointer swap", m.span, None)
+            continue
+        ok, w = post_swap_only(m.id)
+        ctx.check(ok, rid, "sample-after-swap:%s@%s" % (T.split("::")[-1], keyname(m.name).split("::")[-1]),
+                  "%s samples the reader slots only on call chains that start after the pointer swap" % m.name.split("::")[-1], m.span,
+                  {"witness": w, "why": "a slot seen idle before the swap proves nothing: a reader may enter afterwards and still load the old pointer"})
+
+
+def _calls_after_swap_only(F, c, swap_fn):
+    return False
+
+
 def rule_f(ctx, R, types):
     F = ctx.F
     rid = "C01.f"
@@ -322,6 +378,8 @@ def run(ctx):
     ctx.rule("C01.f", "who may free / touch: Box::from_raw on snapshots only in the swapping writer or Drop; only shared reborrows of the "
                       "published pointer; no forget/ptr::read/raw-Arc on snapshot, guard or action types", floor=4)
     ctx.rule("C01.g", "not inside a handler: no FREE leaf in the dispatch cone; the dispatcher drops its guards on every path", floor=3)
+    ctx.rule("C01.h", "every writer-side sampling of the reader slots lies on a call chain that starts after the pointer swap (a zero seen before "
+                      "the swap cannot count towards the grace period)", floor=2)
 
     def body(ctx):
         R = Roles(F)
@@ -334,6 +392,7 @@ def run(ctx):
             if a and b:
                 ctx.guarded("C01.d", rule_d, R, T, b[0], b[1], b[2], a[1], dec)
                 ctx.guarded("C01.e", rule_e, R, T, b[0])
+                ctx.guarded("C01.h", rule_h, R, T, a[0], a[1])
         ctx.guarded("C01.f", rule_f, R, types)
     ctx.guarded("C01.a", body)
     ctx.guarded("C01.g", rule_g)
